@@ -242,8 +242,7 @@ class Observer:
     def queue(s, dev):
         if len(dev.f) < 2:
             return None
-        q = dev.f[1].f[0]
-        return [[int(s.w.error_number(e)), bytes(as_slice(s.w.error_text(e)).items()).decode()] for e in q.items]
+        return [[int(s.w.error_number(e)), bytes(as_slice(s.w.error_text(e)).items()).decode()] for e in s.w.queue_items(dev)]
 
     def node_name(s, devname, node):
         names, _ = s.w.node_names(devname)
